@@ -370,6 +370,7 @@ func TextAroundControlStatements() {
 // interpreter of package gen
 func init() {
 	vrt.Register("C02_generated_mixed", GeneratedMixed)
+	vrt.Register("C02_values_in_source_order", ValuesInSourceOrder)
 }
 
 func GeneratedMixed() {
@@ -393,4 +394,42 @@ func GeneratedMixed() {
 	prog = append(prog, g.Block(gen.Cx{Inner: "x"}, 1)...)
 	prog = append(prog, g.Text())
 	gen.Check(prog, gen.NewData(2), "text, output tags and silent tags around a construct")
+}
+
+// ---- the output holds the values the <%= %> tags produced, in source order: a tag
+// inside a block contributes what its value is when the tag is reached, also when
+// code tags further down change the container or the object the value lives in
+type tally struct{ n int }
+
+func (t *tally) Inc() int       { t.n++; return t.n }
+func (t *tally) String() string { return strconv.Itoa(t.n) }
+
+func ValuesInSourceOrder() {
+	a, b := vrt.Int(), vrt.Int()
+	vrt.Assume(a < 1<<62) // a + 2 does not wrap
+	ctx := plush.NewContext()
+	ctx.Set("a", a)
+	ctx.Set("b", b)
+	ctx.Set("c", &tally{n: a})
+	A, B := strconv.Itoa(a), strconv.Itoa(b)
+	seq := "<%= xs %>;<% xs[0] = b %><%= xs %>"
+	cnt := "<%= c %>,<% c.Inc() %>"
+	cases := []struct{ in, want string }{
+		{"<% let xs = [a] %>" + seq, A + ";" + B},
+		{"<% let xs = [a] %><%= if (true) { %>" + seq + "<% } %>", A + ";" + B},
+		{"<% let xs = [a] %><%= for (i) in [1] { %>" + seq + "<% } %>", A + ";" + B},
+		{"<% let xs = [a] %><% let f = fn() { %>" + seq + "<% } %><%= f() %>", A + ";" + B},
+		{"<% let xs = [a] %><%= if (true) { %><%= if (true) { %>" + seq + "<% } %><% } %>", A + ";" + B},
+		{cnt + cnt, A + "," + strconv.Itoa(a+1) + ","},
+		{"<%= for (i) in [1, 2, 3] { %>" + cnt + "<% } %>", A + "," + strconv.Itoa(a+1) + "," + strconv.Itoa(a+2) + ","},
+		{"<%= if (true) { %>" + cnt + cnt + "<% } %>", A + "," + strconv.Itoa(a+1) + ","},
+		{"<% let m = {k: a} %><%= if (true) { %><%= m[\"k\"] %>;<% m[\"k\"] = b %><%= m[\"k\"] %><% } %>", A + ";" + B},
+	}
+	c := cases[vrt.Choice(len(cases))]
+	vrt.Note("input", c.in)
+	got, err := plush.Render("["+c.in+"]", ctx)
+	vrt.Note("got", got)
+	vrt.Assert(err == nil, "the template renders")
+	vrt.Assert(got == "["+c.want+"]", "each <%= %> tag contributes the value it produced when it was reached, in source order")
+	vrt.Cover("done")
 }
